@@ -1,7 +1,7 @@
 """C11 extension family (second round of seeded changes; each case costs
 a few seconds, so there are few of them):
 
-highorder  denominators of order 100..104 built by the exact step-up recursion
+highorder  denominators of order 33..129 (mostly 100..104) built by the exact step-up recursion
            from chosen reflection coefficients (all |k| < 1 but possibly one
            |k| > 1, an exactly-zero coefficient at a low stage, any non-zero
            gain): parcor_stable must report exactly "all |k| < 1"
@@ -17,15 +17,19 @@ KINDS = ("highorder",)
 
 def cases(ctx):
   rng = ctx.rng
-  for _ in ctx.loop(4, 32):
-    order = rng.randint(100, 104)
+  for _ in ctx.loop(24, 160):
+    # around the sizes at which an implementation might switch algorithms
+    order = rng.choice([rng.randint(100, 104), rng.randint(100, 104),
+                        rng.choice([64, 65]), rng.randint(33, 40),
+                        rng.choice([128, 129])])
     base = rng.choice([Fraction(1, 2), Fraction(-1, 2), Fraction(3, 5),
                        Fraction(-2, 3), Fraction(1, 3)])
     ks = [base] * order
-    ks[rng.choice([4, 7])] = Fraction(0)          # k5 or k8 exactly zero
+    if rng.random() < 0.8:
+      ks[rng.randint(2, 10)] = Fraction(0)        # a low stage exactly zero
     unstable = rng.random() < 0.5
     if unstable:
-      ks[0] = Fraction(rng.choice([11, -11]), 10)  # |k1| > 1
+      ks[rng.choice([0, 0, 1, 3])] = Fraction(rng.choice([11, -11]), 10)
     yield ("highorder", ks, rng.choice([1, Fraction(-7, 3), 2]), unstable)
 
 
@@ -41,4 +45,4 @@ def run_case(ctx, case):
 
 
 def finish(ctx):
-  ctx.need("high-order-denominators", 4)
+  ctx.need("high-order-denominators", 12)
